@@ -12,7 +12,7 @@ from ..core import PropCheck, Case
 from .. import attrs_common as AC
 
 OPERANDS = ['a', 'b', 'c', 'a b', ' a ', 'b  c', '', 'A', 'a-b']
-NAMES = ['a', 'b', 'c', 'A', 'a-b', '', 'a b', 'None']
+NAMES = ['a', 'b', 'c', 'A', 'a-b', '', 'a b', 'None', ' a ']
 
 # groups: the views of one group are read on one fresh element, every group on its own fresh element
 VIEWS = ([[v] for v in (['classList'], ['classNames'], ['className'], ['attr', 'class'], ['item', 'class'], ['get', 'class'], ['attr', 'CLASS'])]
